@@ -263,6 +263,23 @@ class MustCheck:
                     if sub[0] == "binop" and sub[1] in ("Sub", "SubUnchecked") and pos_is(strip(sub[2])) \
                             and self._same_value(body, sub[3], st[1]):
                         blocks.append(bb)
+                    else:
+                        # (p − k) − 1 against a view starting at k + 1
+                        def _flat(e_):
+                            e_ = strip(e_)
+                            if isinstance(e_, tuple) and e_[0] == "field" and e_[2] == "0" and isinstance(strip(e_[1]), tuple) and \
+                                    strip(e_[1])[0] == "binop" and strip(e_[1])[1].endswith("WithOverflow"):
+                                i_ = strip(e_[1])
+                                e_ = ("binop", i_[1][:-len("WithOverflow")], i_[2], i_[3])
+                            return e_
+                        o = _flat(parg)
+                        if isinstance(o, tuple) and o[0] == "binop" and o[1] in ("Sub", "SubUnchecked") and strip(o[3]) == ("const", "usize", 1):
+                            inner_ = _flat(o[2])
+                            start_ = _flat(st[1])
+                            if isinstance(inner_, tuple) and inner_[0] == "binop" and inner_[1] in ("Sub", "SubUnchecked") and pos_is(strip(inner_[2])) and \
+                                    isinstance(start_, tuple) and start_[0] == "binop" and start_[1] in ("Add", "AddUnchecked") and \
+                                    strip(start_[3]) == ("const", "usize", 1) and self._same_value(body, inner_[3], start_[2]):
+                                blocks.append(bb)
         return self.check_paths(body, "%s/%s" % (short(body.key), body.local_name(pos) or "arg%d" % pos),
                                 blocks, [(b, s) for b, s in edges],
                                 "Index(self, p) | assert p < len(self) | delegation on a sub-view", len(blocks) + len(edges))
